@@ -1,6 +1,6 @@
 import Pi2.MM.SliceVerify
 /-!
-# `slice_verifies`: non-vacuity, and the counterexample without `disjFirst`
+# `slice_verifies`: non-vacuity, and the two repaired defects of the slicer as regression facts
 -/
 namespace MM
 namespace SliceEx
@@ -46,13 +46,13 @@ theorem exDb_th1 : verifyLemma exDb "th1" = true := by decide +kernel
 theorem exDb_th2 : verifyLemma exDb "th2" = true := by decide +kernel
 theorem exDb_all : verifyDb exDb = true := by decide +kernel
 
-/-- the slice of `th1`, as the slicer prints it (`$c` and `$v` sorted): everything `th1` cites, the two `$d` -/
+/-- the slice of `th1`, as the slicer prints it (`$c` and `$v` sorted): everything `th1` cites, the two `$d` at their place -/
 def exSl1 : MDb :=
   [.const ["#ElementVariable", "#Pattern", "#SetVariable", "#Symbol", "#Variable", "(", ")", "->", "A.", "set",
            "wff", "|-"],
    .var ["p", "q", "x"],
-   .disj ["p", "x"], .disj ["q", "x"],
    .float "wp" "wff" "p", .float "wq" "wff" "q", .float "vx" "set" "x",
+   .disj ["x", "p"], .disj ["x", "q"],
    .ax "wi" [T "wff", imp p q],
    .ax "ax1" [T "|-", imp p (imp q p)],
    .block [.ess "mp.1" [T "|-", p], .ess "mp.2" [T "|-", imp p q], .ax "mp" [T "|-", q]],
@@ -66,8 +66,8 @@ def exSl2 : MDb :=
   [.const ["#ElementVariable", "#Pattern", "#SetVariable", "#Symbol", "#Variable", "(", ")", "->", "A.", "set",
            "wff", "|-"],
    .var ["p", "q", "x"],
-   .disj ["p", "x"], .disj ["q", "x"],
    .float "wp" "wff" "p", .float "wq" "wff" "q", .float "vx" "set" "x",
+   .disj ["x", "p"], .disj ["x", "q"],
    .block [.ess "th1.1" [T "|-", p], .ax "th1" [T "|-", all x (imp q p)]],
    .block [.ess "th2.1" [T "|-", p],
            .prov "th2" [T "|-", all x (imp p p)] ["(", "th1", ")", "AABCD"]]]
@@ -117,9 +117,11 @@ theorem exSl1_verifies : verifyLemma exSl1 "th1" = true :=
 example : verifyLemma exSl2 "th2" = true := by decide +kernel
 example : verifyLemma exSl1 "th1" = true := by decide +kernel
 
-/-! ## the counterexample: a top-level `$d` after an axiom that mentions both variables -/
+/-! ## the two defects found while proving `slice_verifies`, repaired in the slicer: regression facts -/
 
-/-- ```
+/-- (1) a top-level `$d` AFTER an axiom over both variables, which the lemma uses with equal variables.  The slicer
+used to move every top-level `$d` to the front of the slice, where `ax1` acquired the condition `$d x y`:
+```
 $c |- ( ) foo #Pattern $.  $v x y z $.
 x-f $f #Pattern x $.  y-f $f #Pattern y $.  z-f $f #Pattern z $.
 ax1 $a |- ( foo x y ) $.
@@ -134,8 +136,17 @@ def cexDb : MDb :=
    .disj ["x", "y"],
    .prov "th" [T "|-", .app "foo" [.mv "z", .mv "z"]] ["(", "ax1", ")", "AAB"]]
 
-/-- the slice the slicer cuts for `th` (`$c` / `$v` sorted as `sorted()` does) -/
+/-- the slice the repaired slicer cuts for `th`: the `$d` stays behind `ax1` -/
 def cexSl : MDb :=
+  [.const ["#ElementVariable", "#Pattern", "#SetVariable", "#Symbol", "#Variable", "(", ")", "foo", "|-"],
+   .var ["x", "y", "z"],
+   .float "x-f" "#Pattern" "x", .float "y-f" "#Pattern" "y", .float "z-f" "#Pattern" "z",
+   .ax "ax1" [T "|-", .app "foo" [.mv "x", .mv "y"]],
+   .disj ["x", "y"],
+   .block [.prov "th" [T "|-", .app "foo" [.mv "z", .mv "z"]] ["(", "ax1", ")", "AAB"]]]
+
+/-- what the slicer produced before the repair -/
+def cexSlOld : MDb :=
   [.const ["#ElementVariable", "#Pattern", "#SetVariable", "#Symbol", "#Variable", "(", ")", "foo", "|-"],
    .var ["x", "y", "z"],
    .disj ["x", "y"],
@@ -143,14 +154,10 @@ def cexSl : MDb :=
    .ax "ax1" [T "|-", .app "foo" [.mv "x", .mv "y"]],
    .block [.prov "th" [T "|-", .app "foo" [.mv "z", .mv "z"]] ["(", "ax1", ")", "AAB"]]]
 
-/-- every hypothesis of `WellFormedDb` but `disjFirst` holds -/
-theorem cexDb_almost_wf : (allLabelsL cexDb).Nodup ∧ ")" ∉ allLabelsL cexDb ∧ (∀ s ∈ cexDb, isEssStmt s = false) ∧
-    (∀ x ∈ flatL cexDb, leafOk (dbVars cexDb) x = true) ∧ (∀ c ∈ defaultConstants, c ∉ dbVars cexDb) ∧
-    disjBeforeUseB [] cexDb = false := by decide +kernel
+theorem cexDb_wf : WellFormedDb cexDb := wellFormedDb_of_decide (by decide +kernel)
 
 theorem cexDb_verifies : verifyLemma cexDb "th" = true ∧ verifyDb cexDb = true := by decide +kernel
 
-/-- the slicer's output is `cexSl` … -/
 theorem cexDb_sliced : sliceDatabase cexDb [] ["th"] [] = some [("th", cexSl)] := by
   have raw : ∃ L V, sliceDatabase cexDb [] ["th"] [] = some
       [("th", .const (sortDedup L) :: .var (sortDedup V) :: cexSl.drop 2)] ∧
@@ -166,23 +173,73 @@ theorem cexDb_sliced : sliceDatabase cexDb [] ["th"] [] = some [("th", cexSl)] :
   rw [h, c, v]
   rfl
 
-/-- … and it does NOT verify: `ax1` now has the mandatory condition `$d x y`, which `z`, `z` violates -/
-theorem cexSl_fails : verifyLemma cexSl "th" = false := by decide +kernel
+/-- the slice verifies now (by the theorem, and by computation); the old slice did not -/
+theorem cex_disj_now_verifies : verifyLemma cexSl "th" = true :=
+  slice_verifies cexDb_wf cexDb_sliced (by simp) cexDb_verifies.1
 
-/-- the hypothesis `disjFirst` of `slice_verifies` cannot be dropped -/
-theorem slice_verifies_needs_disjFirst : ∃ (db : MDb) (l : String) (sl : MDb),
-    (allLabelsL db).Nodup ∧ ")" ∉ allLabelsL db ∧ (∀ s ∈ db, isEssStmt s = false) ∧
-    (∀ x ∈ flatL db, leafOk (dbVars db) x = true) ∧ (∀ c ∈ defaultConstants, c ∉ dbVars db) ∧
-    sliceDatabase db [] [l] [] = some [(l, sl)] ∧ verifyDb db = true ∧ verifyLemma db l = true ∧
-    verifyLemma sl l = false :=
-  ⟨cexDb, "th", cexSl, cexDb_almost_wf.1, cexDb_almost_wf.2.1, cexDb_almost_wf.2.2.1, cexDb_almost_wf.2.2.2.1,
-    cexDb_almost_wf.2.2.2.2.1, cexDb_sliced, cexDb_verifies.2, cexDb_verifies.1, cexSl_fails⟩
+example : verifyLemma cexSl "th" = true := by decide +kernel
+
+theorem cex_disj_old_slice_fails : verifyLemma cexSlOld "th" = false := by decide +kernel
+
+/-- (2) an essential hypothesis stated outside a block, cited by the lemma after it.  The slicer used to drop it:
+```
+$c |- ( ) foo #Pattern $.  $v x $.  x-f $f #Pattern x $.
+h $e |- ( foo x x ) $.
+th $p |- ( foo x x ) $= ( ) B $.
+``` -/
+def cexEssDb : MDb :=
+  [.const ["|-", "(", ")", "foo", "#Pattern"],
+   .var ["x"],
+   .float "x-f" "#Pattern" "x",
+   .ess "h" [T "|-", .app "foo" [.mv "x", .mv "x"]],
+   .prov "th" [T "|-", .app "foo" [.mv "x", .mv "x"]] ["(", ")", "B"]]
+
+def cexEssSl : MDb :=
+  [.const ["#ElementVariable", "#Pattern", "#SetVariable", "#Symbol", "#Variable", "(", ")", "foo", "|-"],
+   .var ["x"],
+   .float "x-f" "#Pattern" "x",
+   .ess "h" [T "|-", .app "foo" [.mv "x", .mv "x"]],
+   .block [.prov "th" [T "|-", .app "foo" [.mv "x", .mv "x"]] ["(", ")", "B"]]]
+
+/-- what the slicer produced before the repair -/
+def cexEssSlOld : MDb :=
+  [.const ["#ElementVariable", "#Pattern", "#SetVariable", "#Symbol", "#Variable", "(", ")", "foo", "|-"],
+   .var ["x"],
+   .float "x-f" "#Pattern" "x",
+   .block [.prov "th" [T "|-", .app "foo" [.mv "x", .mv "x"]] ["(", ")", "B"]]]
+
+theorem cexEssDb_wf : WellFormedDb cexEssDb := wellFormedDb_of_decide (by decide +kernel)
+
+theorem cexEssDb_verifies : verifyLemma cexEssDb "th" = true ∧ verifyDb cexEssDb = true := by decide +kernel
+
+theorem cexEssDb_sliced : sliceDatabase cexEssDb [] ["th"] [] = some [("th", cexEssSl)] := by
+  have raw : ∃ L V, sliceDatabase cexEssDb [] ["th"] [] = some
+      [("th", .const (sortDedup L) :: .var (sortDedup V) :: cexEssSl.drop 2)] ∧
+      L = ["(", ")", "#Variable", "#ElementVariable", "#SetVariable", "#Pattern", "#Symbol", "|-", "foo", "|-", "foo",
+        "#Pattern"] ∧ V = ["x", "x", "x", "x"] := ⟨_, _, rfl, rfl, rfl⟩
+  obtain ⟨L, V, h, rfl, rfl⟩ := raw
+  have c : sortDedup ["(", ")", "#Variable", "#ElementVariable", "#SetVariable", "#Pattern", "#Symbol", "|-", "foo",
+      "|-", "foo", "#Pattern"] =
+      ["#ElementVariable", "#Pattern", "#SetVariable", "#Symbol", "#Variable", "(", ")", "foo", "|-"] := by
+    unfold sortDedup; simp [List.mergeSort, List.MergeSort.Internal.splitInTwo]; decide
+  have v : sortDedup ["x", "x", "x", "x"] = ["x"] := by
+    unfold sortDedup; simp [List.mergeSort, List.MergeSort.Internal.splitInTwo]; decide
+  rw [h, c, v]
+  rfl
+
+theorem cex_top_ess_now_verifies : verifyLemma cexEssSl "th" = true :=
+  slice_verifies cexEssDb_wf cexEssDb_sliced (by simp) cexEssDb_verifies.1
+
+example : verifyLemma cexEssSl "th" = true := by decide +kernel
+
+theorem cex_top_ess_old_slice_fails : verifyLemma cexEssSlOld "th" = false := by decide +kernel
 
 end SliceEx
 end MM
 
 #print axioms MM.SliceEx.exDb_wf
 #print axioms MM.SliceEx.exDb_slices
-#print axioms MM.SliceEx.slice_verifies_needs_disjFirst
+#print axioms MM.SliceEx.cex_disj_now_verifies
+#print axioms MM.SliceEx.cex_top_ess_now_verifies
 #print axioms MM.SliceEx.exSl2_verifies
-#print axioms MM.SliceEx.cexSl_fails
+#print axioms MM.SliceEx.cex_disj_old_slice_fails
